@@ -368,3 +368,67 @@ Proof.
   intros Hwf Hc Hin Hg. rewrite check_pkg_embed in Hc. apply deletable_d_embed.
   eapply (verdict_sound_partial p vs vd); eassumption.
 Qed.
+
+(* ---------- the guard line of a file, and why it may be exempted when the file is read on its own ---------- *)
+
+Lemma find_guard_from_shape : forall p idx g,
+  find_guard_from idx p = Some g ->
+  exists pre x post,
+    p = pre ++ DIf true (DCDefined x) :: post /\ Forall (eq DComment) pre /\
+    g = (idx + length pre)%nat /\ guard_name_ok x = true /\ closes_at_end [true] post = true.
+Proof.
+  induction p as [|b p IH]; intros idx g H; simpl in H; [discriminate|].
+  destruct b; try discriminate.
+  - apply IH in H. destruct H as (pre & x & post & -> & Hf & -> & Hn & Hc).
+    exists (DComment :: pre), x, post. simpl. repeat split; auto; try lia.
+  - destruct neg; try discriminate. destruct c; try discriminate.
+    destruct (guard_name_ok x && closes_at_end [true] p) eqn:E; try discriminate.
+    apply andb_prop in E. destruct E as [En Ec]. inversion H; subst g.
+    exists [], x, p. simpl. repeat split; auto.
+Qed.
+
+(* what findGuardLine finds: a line ".if !defined(NAME)" that is preceded by
+   comments and empty lines only *)
+Theorem find_guard_shape p g :
+  find_guard p = Some g ->
+  exists pre l x post,
+    p = pre ++ l :: post /\ length pre = g /\ dl_body l = DIf true (DCDefined x) /\
+    guard_name_ok x = true /\ Forall (fun l0 => dl_body l0 = DComment) pre.
+Proof.
+  unfold find_guard. intro H. apply find_guard_from_shape in H.
+  destruct H as (bpre & x & bpost & Hm & Hf & -> & Hn & _).
+  apply map_eq_app in Hm. destruct Hm as (pre & rest & -> & Hpre & Hrest).
+  destruct rest as [|l post]; [discriminate|]. simpl in Hrest. inversion Hrest as [[Hl Hpost]].
+  exists pre, l, x, post. repeat split; auto.
+  - rewrite <- Hpre. rewrite map_length. reflexivity.
+  - subst bpre. clear -Hf. induction pre as [|a pre IH]; constructor.
+    + inversion Hf; subst. symmetry. assumption.
+    + apply IH. inversion Hf; assumption.
+Qed.
+
+Lemma exec_comments fuel pre : Forall (fun l0 => dl_body l0 = DComment) pre ->
+  forall s, fold_left (exec_dline fuel) (to_spec_d pre) s = s.
+Proof.
+  induction 1 as [|l pre Hl _ IH]; intro s; simpl; [reflexivity|].
+  unfold spec_dline at 1. rewrite Hl.
+  assert (E : exec_dline fuel s SDNop = s) by (unfold exec_dline; destruct (d_err s); reflexivity).
+  rewrite E. apply IH.
+Qed.
+
+(* When a file with a guard line is read on its own (closed world: nothing was
+   read before it), make takes the guard: after the guard line the body is
+   active and the variable table is still empty.  This is why NewMkLines may
+   treat the body as unconditional for ONE file - and why the same exemption is
+   wrong for the whole-package scan, where other lines come first. *)
+Theorem guard_taken_when_read_alone p g fuel :
+  find_guard p = Some g ->
+  fold_left (exec_dline fuel) (to_spec_d (firstn (S g) p)) dinit
+  = mkD empty_store [mkFrame true true false] false.
+Proof.
+  intro H. apply find_guard_shape in H. destruct H as (pre & l & x & post & -> & <- & Hl & _ & Hf).
+  replace (S (length pre)) with (length (pre ++ [l])) by (rewrite app_length; simpl; lia).
+  replace (pre ++ l :: post) with ((pre ++ [l]) ++ post) by (rewrite <- app_assoc; reflexivity).
+  rewrite firstn_app, firstn_all, Nat.sub_diag. simpl. rewrite app_nil_r.
+  unfold to_spec_d. rewrite map_app, fold_left_app. fold (to_spec_d pre).
+  rewrite (exec_comments fuel pre Hf). simpl. unfold spec_dline. rewrite Hl. reflexivity.
+Qed.
